@@ -34,7 +34,9 @@ IndexKinds  == {"EMG", "EMG0", "Data3D", "Force", "Events"} \* kinds with index 
 
 \* aux: a count of auxiliary per-block content that is not an item (the marker links
 \* of a 3D block); 0 for the other kinds
-NoInst == [ex |-> FALSE, items |-> <<>>, chans |-> <<>>, aux |-> 0]
+\* szok: the size the block declares equals the size of its encoding (observed by the
+\* harness; TRUE in the model)
+NoInst == [ex |-> FALSE, items |-> <<>>, chans |-> <<>>, aux |-> 0, szok |-> TRUE]
 
 Ids(inst)    == {inst.items[k].id : k \in 1..Len(inst.items)}
 Range(s)     == {s[k] : k \in 1..Len(s)}
@@ -57,10 +59,11 @@ Sticky(kind, a, b) == kind \in ChanKinds /\ Len(a.chans) = Len(a.items) /\ Len(b
                         \A id \in Ids(a) \cap Ids(b) : ChanOf(a, id) = ChanOf(b, id)
 
 StateClauses(kind, a, b) ==
-     \* (aux = -1: the harness found the declared size of the block different from the size of
-     \* its encoding - for a channel-mapped block the sign of a channel map that is longer or
-     \* shorter than the item list, which pair iteration would hide)
-     If(b.ex /\ (~Aligned(kind, b) \/ (kind \in ChanKinds /\ b.aux < 0)), "C15:misaligned")
+     \* (~szok: the declared size of the block differs from the size of its encoding - for a
+     \* channel-mapped block the sign of a channel map that is longer or shorter than the item
+     \* list, which pair iteration would hide)
+     If(b.ex /\ (~Aligned(kind, b) \/ (kind \in ChanKinds /\ ~b.szok)), "C15:misaligned")
+  \cup If(b.ex /\ ~b.szok, "C02:declared_size_after_edits")
   \cup If(b.ex /\ kind \in ChanKinds /\ ~Unique(b), "C15:duplicate_channel")
   \cup If(a.ex /\ b.ex /\ ~Sticky(kind, a, b), "C15:channel_moved")
 
